@@ -3,6 +3,7 @@ import IceProofs.TcpMuxCauseStep
 import IceProofs.TcpMuxSimEnd
 import IceSpec.C15
 import IceSpec.C15View
+import IceProofs.TcpMuxDriver
 /-!
 # C15 — TCP mux routes connections by ufrag and cleans up after itself
 
@@ -710,7 +711,8 @@ frame, late, order and source, reply path, provisional expires, delivery, close.
 The proof is a simulation: `IceProofs.TcpMux.Sim` relates the model state to the monitor state
 (`C15_monitor_tracks_model`), every operation re-establishes it (`step_sim`).  The monitor that judges the
 implementation is `observe = observeT ∘ (parseToks, parseLine)`; the printing of the model's typed line
-and its re-reading by these parsers is checked by the driver on every generated line (`VIEW-DISAGREES`). -/
+and its re-reading by these parsers are proved below (`C15_view_roundtrip*`, `C15_view_ops*`,
+`C15_model_passes_string_monitor*`, `C15_driver_model_accepted`). -/
 theorem C15_model_passes_monitor (cfg : Config) (ops : List Op) (withEnd : Bool) :
     firstViolation (traceOf cfg ops withEnd) = none := by
   unfold firstViolation
@@ -723,6 +725,116 @@ open IceSpec.C15 IceSpec.C15.View in
 theorem C15_model_passes_monitor_lines (cfg : Config) (ops : List Op) (withEnd : Bool) :
     ∀ v, v ∈ verdicts {} (traceOf cfg ops withEnd) → v = none :=
   IceProofs.TcpMux.trace_ok cfg ops withEnd
+
+open IceSpec.C15 IceSpec.LineProto in
+/-- **View round trip.** The monitor's line parser reads back EVERY well-formed observation printed by
+`printObs` (the printer the driver uses), whatever result tokens `rt` (free of spaces) it is printed with:
+the observation comes back with the result the parser reads from `rt`.  `Obs.wf` (decidable): non-empty
+census, payload ids free of ` `, `,`, `:`. -/
+theorem C15_view_roundtrip (rt : List String) (o : Obs) (h : o.wf = true) (hrt : ∀ t ∈ rt, free ' ' t = true) :
+    parseLine (printObs rt o) = .obs { o with res := parseRes rt } :=
+  IceProofs.TcpMuxView.parseLine_printObs rt o h (fun t ht => (IceProofs.LineProto.free_iff ' ' t).mp (hrt t ht))
+
+open IceSpec.C15 in
+-- non-vacuity: a well-formed observation with a reply, and one that is not (empty census)
+example : (Obs.mk .ok [0, 2] [(1, "7")] [1, 0] false true).wf = true := by decide
+open IceSpec.C15 in
+example : (Obs.mk .ok [] [] [] false true).wf = false := by decide
+
+open IceSpec.C15 IceSpec.C15.View in
+/-- every observation of the model is well-formed, and every line the model prints (`new`, every
+operation, `end`) is read back by the monitor's parser as exactly the typed line of the view -/
+theorem C15_view_roundtrip_model (s : State) (op : Op) :
+    (∀ old r, (obsOf old s r).wf = true) ∧ parseLine (printedLine s op) = lineOf s op ∧
+    parseLine (printedStart s.cfg) = .obs (obsOf [] (init s.cfg) .ok) ∧ parseLine (printedEnd s) = endLine s :=
+  ⟨fun old r => IceProofs.TcpMuxView.obsOf_wf old s r, IceProofs.TcpMuxView.parseLine_printedLine s op,
+   IceProofs.TcpMuxView.parseLine_printedStart s.cfg, IceProofs.TcpMuxView.parseLine_printedEnd s⟩
+
+open IceSpec.C15 IceSpec.C15.View in
+/-- **Every run of the model, printed by the driver's printer, is accepted by the STRING monitor**: the
+monitor the driver applies to the implementation's output lines (`observe m toks impl = observeL m
+(parseToks toks) impl`, `observeL m op impl = observeT m op (parseLine impl)`) returns no violation on
+any printed line of any session. -/
+theorem C15_model_passes_string_monitor (cfg : Config) (ops : List Op) (withEnd : Bool) :
+    ∀ v, v ∈ verdictsL {} (printedTrace cfg ops withEnd) → v = none := by
+  rw [IceProofs.TcpMuxView.verdictsL_printedTrace]
+  exact IceProofs.TcpMux.trace_ok cfg ops withEnd
+
+open IceSpec.C15 in
+/-- `observe` is `observeL` after reading the operation tokens -/
+theorem C15_observe_eq (m : Mon) (toks : List String) (impl : String) :
+    observe m toks impl = View.observeL m (parseToks toks) impl := rfl
+
+open IceSpec.C15 IceSpec.C15.View in
+/-- **Operation side of the view.** The monitor's reader of the operation tokens (`parseToks`) and the
+reader the driver uses to run the model (`parseOp`) agree on EVERY token list the driver accepts — no
+hypothesis: `parseOp` refuses a `write` whose payload id is not a canonical decimal (`007`; the driver
+answers `bad-op`), all other numbers are read by both with `String.toNat?`; and the `new` line is read as
+the configured timeouts. -/
+theorem C15_view_ops (s : State) (toks : List String) (op : Op) (h : parseOp s toks = some op) :
+    parseToks toks = mopOf op :=
+  IceProofs.TcpMuxView.parseToks_of_parseOp s toks op h
+
+open IceSpec.C15 IceSpec.C15.View in
+theorem C15_view_ops_new (cap wbuf t1 t2 : String) (a b : Nat) (h1 : t1.toNat? = some a) (h2 : t2.toNat? = some b) :
+    parseToks ["new", cap, wbuf, t1, t2] = .start a b :=
+  IceProofs.TcpMuxView.parseToks_new cap wbuf t1 t2 a b h1 h2
+
+open IceSpec.C15 IceSpec.C15.View in
+/-- every operation the line protocol can carry (`opWF`: fake addresses 0…3) has canonical tokens
+`opToks` that the driver reads back as that operation and the monitor as its typed view -/
+theorem C15_view_ops_canonical (s : State) (op : Op) (h : opWF op = true) :
+    parseOp s (opToks s op) = some op ∧ parseToks (opToks s op) = mopOf op :=
+  ⟨IceProofs.TcpMuxView.parseOp_opToks s op h, IceProofs.TcpMuxView.parseToks_opToks s op h⟩
+
+open IceSpec.C15 IceSpec.C15.View in
+/-- a `write` line is accepted only with a canonical payload id: the text is the printed number -/
+theorem C15_view_ops_pid_canonical (s : State) (h ip port pid len : String) (op : Op)
+    (hp : parseOp s ["write", h, ip, port, pid, len] = some op) :
+    ∃ h' dst p l, op = .write h' dst p l ∧ toString p = pid := by
+  simp only [parseOp] at hp
+  split at hp
+  · split at hp
+    · injection hp with hp
+      exact ⟨_, _, _, _, hp.symm, IceProofs.TcpMuxView.canonNat_eq _ _ ‹_›⟩
+    · cases hp
+  · cases hp
+
+open IceSpec.C15 IceSpec.C15.View in
+-- non-vacuity: canonical lines are accepted (the hypotheses of the theorems above are satisfiable), `opWF` says no
+example : parseOp (init ⟨0, false, 0, 0⟩) (opToks (init ⟨0, false, 0, 0⟩) (.accept ⟨1, 1000⟩ 2)) = some (.accept ⟨1, 1000⟩ 2) :=
+  (C15_view_ops_canonical _ _ (by decide)).1
+open IceSpec.C15 IceSpec.C15.View in
+example : parseOp (init ⟨0, false, 0, 0⟩) (opToks (init ⟨0, false, 0, 0⟩) (.write 0 ⟨0, 1000⟩ 7 5)) = some (.write 0 ⟨0, 1000⟩ 7 5) :=
+  (C15_view_ops_canonical _ _ (by decide)).1
+open IceSpec.C15 IceSpec.C15.View in
+example : opToks (init ⟨0, false, 0, 0⟩) (.write 0 ⟨0, 1000⟩ 7 5) = ["write", "h0", "0", "1000", "7", "5"] := by decide
+open IceSpec.C15 IceSpec.C15.View in
+example : opWF (.accept ⟨4, 1⟩ 0) = false ∧ opWF (.read 3) = true := by decide
+
+open IceSpec.C15 IceSpec.C15.View in
+/-- **Text on both sides.** Every session of the model, written as the canonical operation tokens and the
+printed output lines, is accepted by the string monitor `observe` exactly as the driver runs it on the
+implementation (operation tokens + output line). -/
+theorem C15_model_passes_string_monitor_tokens (cfg : Config) (ops : List Op) (withEnd : Bool)
+    (hw : ∀ op ∈ ops, opWF op = true) :
+    ∀ v, v ∈ verdictsS {} (tokenTrace cfg ops withEnd) → v = none := by
+  rw [IceProofs.TcpMuxView.verdictsS_tokenTrace cfg ops withEnd hw]
+  exact C15_model_passes_string_monitor cfg ops withEnd
+
+open IceSpec.C15 IceSpec.C15.View in
+/-- **The driver's model side is accepted on EVERY input.** For any sequence of input lines whatsoever
+(well-formed or not: repeated `new`, `multi`, operations without a session, malformed tokens, operations
+after `end`), the string monitor `observe`, fed with the operation tokens and the output line that the
+model side of the driver (`modelStep`) prints, never reports a violation.  `Driver.TcpMux.step` is
+`modelStep` + `observe`, so its `MODEL-REJECTED-BY-MONITOR` marker is unreachable; no hypothesis. -/
+theorem C15_driver_model_accepted (input : List (List String)) :
+    ∀ v ∈ driverRun none {} input, v = none :=
+  IceProofs.TcpMuxView.driverRun_ok none {} rfl input
+
+open IceSpec.C15 IceSpec.C15.View in
+-- non-vacuity: one verdict per input line
+example : (driverRun none {} [["new", "0", "0", "30", "50"], ["accept", "0", "0", "1000", "0"], ["bogus"], ["end"]]).length = 4 := rfl
 
 /-- a session with a known and an unknown ufrag, a later frame, reads, a reply, a slow-loris client and an expiry -/
 def exSession : List Op :=
@@ -742,6 +854,18 @@ open IceSpec.C15 IceSpec.C15.View in
 example : firstViolation (traceOf exCfg exSession true) = none := by decide
 open IceSpec.C15 IceSpec.C15.View in
 example : firstViolation (traceOf exCfg exSamePayload true) = none := by decide
+
+open IceSpec.C15 IceSpec.C15.View in
+-- non-vacuity of the string-level theorems: the printed trace has one text line per typed line, the
+-- string monitor produces one verdict per line, and a printed line is the protocol text
+example : (printedTrace exCfg exSession true).length = 16 := by decide
+open IceSpec.C15 IceSpec.C15.View in
+example : (verdictsL {} (printedTrace exCfg exSession true)).length = 16 := by
+  rw [IceProofs.TcpMuxView.verdictsL_printedTrace]; decide
+open IceSpec.C15 IceSpec.C15.View in
+example : printedStart exCfg = "ok ; c= ; o= ; g=1/0/0/0/0/0 ; L=0 ; ret=0" := by decide
+open IceSpec.C15 IceSpec.C15.View in
+example : (exSession.all opWF) = true ∧ (tokenTrace exCfg exSession true).length = 16 := by decide
 
 open IceSpec.C15 IceSpec.C15.View in
 /-- the lines of `exSamePayload` with the first two reads swapped -/
